@@ -14,8 +14,9 @@ from concurrent.futures import ThreadPoolExecutor
 
 from common import MachineryError, REPO, TARGET, WORK, base_env, inproc_bin
 
-HELPERS = {  # helper types of the facade crate -> features providing them (README / doc)
-    "BinaryError": ["add"], "WrongVariantError": ["add"], "UnitError": ["add", "not"], "FromStrError": ["from_str"],
+HELPERS = {  # helper types of the facade crate -> features whose derives return / mention them (README / doc; `#[mul(forward)]` on an
+             # enum returns Result<_, BinaryError> exactly as derive(Add) does)
+    "BinaryError": ["add", "mul"], "WrongVariantError": ["add", "mul"], "UnitError": ["add", "mul", "not"], "FromStrError": ["from_str"],
     "TryFromReprError": ["try_from"], "TryIntoError": ["try_into"], "TryUnwrapError": ["try_unwrap"],
 }
 
@@ -65,6 +66,52 @@ def probe_crate(dirpath, feats, std, derives):
     with open(os.path.join(dirpath, "src", "lib.rs"), "w") as f:
         f.write("\n".join(lines) + "\n")
     return items
+
+
+_USAGE = None
+
+
+def usage_modules():
+    """derive name -> list of module texts (from C01's supported-shape space: plain and fully generic instantiations)
+    that mention no other derive_more derive, so that they are meaningful with that derive's feature alone."""
+    global _USAGE
+    if _USAGE is None:
+        import c01
+        tab, gens, cases, metas, reqs = c01.build(False)
+        _USAGE = {}
+        for c in cases:
+            m = c.meta
+            if m["deco"] != "none" or m["raw"] or m["gen"] not in ("none", "full"):
+                continue
+            used = set(re.findall(r"derive_more::(\w+)", c.module))
+            if used != {m["derive"]}:
+                continue
+            _USAGE.setdefault(m["derive"], []).append(c.module)
+    return _USAGE
+
+
+def usage_crate(dirpath, feats, std, derives):
+    """A crate applying every derive of the enabled features to supported inputs; returns number of derive applications."""
+    import c01
+    shutil.rmtree(dirpath, ignore_errors=True)
+    os.makedirs(os.path.join(dirpath, "src"))
+    fl = list(feats) + (["std"] if std else [])
+    with open(os.path.join(dirpath, "Cargo.toml"), "w") as f:
+        f.write('[package]\nname = "c20use"\nversion = "0.0.0"\nedition = "2021"\n[workspace]\n[dependencies]\nderive_more = { path = "%s", default-features = false, features = [%s] }\n' % (
+            REPO, ", ".join('"%s"' % x for x in fl)))
+    shutil.copy(os.path.join(REPO, "Cargo.lock"), os.path.join(dirpath, "Cargo.lock"))
+    um = usage_modules()
+    parts = ["#![allow(unused, dead_code, non_camel_case_types)]\n", c01.PRELUDE]
+    n = 0
+    for d in derives:
+        if d["feature"] not in feats:
+            continue
+        for k, mod in enumerate(um.get(d["name"], [])):
+            parts.append("pub mod u_%s_%d {\n%s\n}\n" % (d["name"].lower(), k, mod))
+            n += 1
+    with open(os.path.join(dirpath, "src", "lib.rs"), "w") as f:
+        f.write("".join(parts))
+    return n
 
 
 def check_config(worker, feats, std, derives, do_tests, tests, clean=False):
@@ -117,6 +164,23 @@ def check_config(worker, feats, std, derives, do_tests, tests, clean=False):
             problems.append(("item of an enabled feature is not exposed", ", ".join(missing[:6])))
         if extra:
             problems.append(("item of a disabled feature is exposed", ", ".join(extra[:6])))
+    # 3b. every derive of the enabled features applied to supported inputs: the expansions must type-check in this configuration
+    udir = os.path.join(WORK, "c20u-%d" % worker)
+    napps = usage_crate(udir, feats, std, derives)
+    p = cargo(["check", "--offline", "--message-format=json", "-q"], udir, tdir)
+    steps += 1
+    uerrs = []
+    for line in p.stdout.splitlines():
+        if not line.startswith("{"):
+            continue
+        m = json.loads(line)
+        if m.get("reason") == "compiler-message" and m["message"]["level"] == "error" and not m["message"]["message"].startswith("aborting"):
+            uerrs.append(m["message"]["message"])
+    if uerrs:
+        problems.append(("a derive of an enabled feature does not compile in this configuration", " | ".join(sorted(set(uerrs))[:3])[:400]))
+    elif p.returncode != 0:
+        problems.append(("usage crate does not build", last_error(p.stderr)))
+    shutil.rmtree(udir, ignore_errors=True)
     # 4. the repository's own tests for the enabled features
     if do_tests:
         for t, req in sorted(tests.items()):
@@ -133,7 +197,7 @@ def check_config(worker, feats, std, derives, do_tests, tests, clean=False):
             d = os.path.join(tdir, sub)
             if os.path.isdir(d):
                 for name in os.listdir(d):
-                    if name.startswith(("derive_more", "libderive_more", "c20probe", "libc20probe")) or re.match(r"^(lib)?(add|as_|constructor|debug|deref|display|error|from|index|into|is_variant|mul|not|sum|try_|unwrap|generics|lib|no_std|boats)", name):
+                    if name.startswith(("derive_more", "libderive_more", "c20probe", "libc20probe", "c20use", "libc20use")) or re.match(r"^(lib)?(add|as_|constructor|debug|deref|display|error|from|index|into|is_variant|mul|not|sum|try_|unwrap|generics|lib|no_std|boats)", name):
                         path = os.path.join(d, name)
                         (shutil.rmtree if os.path.isdir(path) else os.remove)(path)
     return problems, steps
@@ -176,13 +240,14 @@ def run(chk, tier):
         label = "%s%s" % ("+".join(fs) if len(fs) < 4 else "full", "" if std else " (no std)")
         if not problems:
             chk.outcome("ok/%d-features/%s" % (min(len(fs), 3), "std" if std else "no_std"))
-            chk.sample({"features": list(fs) if len(fs) < 4 else "all 24", "std": std, "cargo_steps": steps, "verdict": "builds, exposes exactly its items" + (", own tests pass" if steps > 3 else "")})
+            chk.sample({"features": list(fs) if len(fs) < 4 else "all 24", "std": std, "cargo_steps": steps, "verdict": "builds, exposes exactly its items, its derives expand to code that type-checks" + (", own tests pass" if steps > 4 else "")})
             continue
         for kind, detail in problems:
             chk.outcome("problem: " + kind)
             chk.violation("%s [%s]" % (kind, "std" if std else "no_std") + (": " + re.sub(r"[`'\"].*", "", detail)[:60] if "build" in kind else ""), "--no-default-features --features " + ",".join(fs) + (",std" if std else ""), detail)
     chk.part("lattice", configurations=len(configs), singles=len(feats), pairs=(len(feats) * (len(feats) - 1) // 2 if thorough else 0), with_and_without_std=True,
              probe_items=len(derives) * 3 + len(HELPERS), repository_tests_run_for="singles and full (thorough)" if thorough else "none (quick)",
-             steps=["cargo check -p derive_more-impl", "cargo check -p derive_more", "probe crate: unresolved imports == items of disabled features", "cargo test --test <feature>"])
+             steps=["cargo check -p derive_more-impl", "cargo check -p derive_more", "probe crate: unresolved imports == items of disabled features",
+                    "usage crate: every derive of the enabled features applied to C01's supported inputs type-checks", "cargo test --test <feature>"])
     chk.assumptions += ["which feature provides which helper type is transcribed from the README/doc (HELPERS table); derive -> feature comes from create_derive! in impl/src/lib.rs",
                         "`testing-helpers` is not a user-facing derive feature and is left out"]
